@@ -13,12 +13,12 @@ SPEC = {
         'base64/base32 strings with non-zero padding bits: only "accepted => canonical" is claimed (RFC 4648 3.5 allows rejecting them)',
     ],
     'stages': [
-        hyp('c48_messages.py', 6000, 120000, needs=[('san', 'sutd')], min_cases_quick=2500,
+        hyp('c48_messages.py', 4000, 100000, needs=[('san', 'sutd')], min_cases_quick=1500,
             floors={'type:tx': 0.04, 'type:block': 0.02, 'tx-witness': 0.01, 'noncanonical': 0.1, 'hugecount': 0.1, 'kind:txspecial': 0.03, 'superfluous-witness': 0.02,
                     'type:addrv2': 0.01, 'type:cmpctblock': 0.01, 'kind:compactsize': 0.005},
             rule='one object (tx/block/header/P2P payload/CompactSize) per case + truncation, trailing bytes, non-canonical and impossible counts; '
                  'non-trivial = object has >= 1 element; distinct = type+element count+size class+perturbations'),
-        hyp('c48_codec.py', 24000, 400000, needs=[('san', 'sutd')], min_cases_quick=9000,
+        hyp('c48_codec.py', 16000, 300000, needs=[('san', 'sutd')], min_cases_quick=6000,
             floors={'codec:hex': 0.03, 'codec:base58': 0.03, 'codec:base58check': 0.03, 'codec:base64': 0.03, 'codec:base32': 0.03, 'kind:money': 0.05, 'kind:int': 0.05,
                     'verdict:False': 0.1, 'verdict:True': 0.1, 'money-valid': 0.02, 'money-rejected': 0.02, 'int-valid': 0.01, 'int-rejected': 0.01},
             rule='one encode/decode/parse per case with a mutation of the canonical string; non-trivial = non-empty payload or mutated string; '
